@@ -20,7 +20,11 @@ func scenarios(r *ev.Run) []scenario {
 		kc.ROps = []string{"cf:", "cl:", "cs::k2", "cn", "cp"}
 	}
 	// K3: three committed transactions colliding on one key (cache add/remove interplay)
-	k3 := scenario{Name: "one-key-3tx", Cfgs: both(fsLarge), MaxTx: 3, Reopen: r.Pick(1, 2), Hold: true, HoldNeverOnly: !th, ObsBuckets: []string{""}, NoBlockObs: true,
+	k3Cfgs := both(fsLarge)
+	if !th {
+		k3Cfgs = []cfg{{fsLarge, false}} // the cache add/remove interplay only exists without flush-on-commit
+	}
+	k3 := scenario{Name: "one-key-3tx", Cfgs: k3Cfgs, MaxTx: 3, Reopen: r.Pick(1, 2), Hold: true, HoldNeverOnly: !th, ObsBuckets: []string{""}, NoBlockObs: true,
 		WOps:  []string{"put::k1:A", "put::k1:", "del::k1", "put::k2:A", "cf:", "cn", "cd"},
 		ROps:  []string{"cf:", "cn"},
 		Depth: r.Pick(3, 5)}
@@ -35,7 +39,12 @@ func scenarios(r *ev.Run) []scenario {
 	blOps := []string{"sb:0", "sb:1", "sb:2", "put::k1:A", "del::k1"}
 	bl := scenario{Name: "blocks-rollover", Cfgs: both(fsTiny), MaxTx: r.Pick(2, 3), Reopen: 1, Hold: true, HoldNeverOnly: !th, ObsBuckets: []string{""},
 		WOps: blOps, ROps: []string{"cf:"}, Depth: r.Pick(4, 5)}
-	bl2 := scenario{Name: "blocks-fit-and-large", Cfgs: append(both(fsFit2), both(fsLarge)...), MaxTx: r.Pick(2, 3), Reopen: 1, Hold: th, ObsBuckets: []string{""},
+	bl2Cfgs := append(both(fsFit2), both(fsLarge)...)
+	if !th {
+		// the file layout does not depend on the flush policy: one policy each
+		bl2Cfgs = []cfg{{fsFit2, true}, {fsLarge, false}}
+	}
+	bl2 := scenario{Name: "blocks-fit-and-large", Cfgs: bl2Cfgs, MaxTx: r.Pick(2, 3), Reopen: 1, Hold: th, ObsBuckets: []string{""},
 		WOps: blOps, ROps: []string{"cf:"}, Depth: r.Pick(3, 4)}
 	// PR: pruning (dedicated)
 	pr := scenario{Name: "prune", Cfgs: both(fsTiny), MaxTx: r.Pick(2, 3), Reopen: 1, Hold: false, ObsBuckets: []string{""},
